@@ -22,6 +22,8 @@ mod fetching;
 pub(crate) mod merge_channel;
 pub(crate) mod update;
 pub(super) mod worker;
+#[cfg(scylla_verif)]
+pub(crate) use fetching::verif as fetching_verif;
 
 use crate::cluster::metadata::update::ClientRoutesUpdate;
 use crate::cluster::node::{NodeAddr, ResolvedContactPoint};
